@@ -7,13 +7,15 @@ the logged heads and chains; the logged head vectors are validated against the m
 Real timers, goroutine scheduling, the 2-period sync-restart rule and gRPC are exercised, not proved.
 """
 import json, os, subprocess, concurrent.futures
-from .. import core
+from .. import core, netreshare
 
 ID = "C05"
 MODULE = "DrandProofs.C05"
 THEOREMS = ["Drand.Net." + t for t in [
     "c05_step_progress", "c05_level", "c05_catchup", "c05_no_skip", "c05_no_skip_store", "c05_rejoin", "c05_rejoin_needed",
-    "c05_below_threshold_no_progress", "c05_heads_monotone", "c05_heads_monotone_run", "c05_quiet_of_heads", "tie_net_rules"]]
+    "c05_below_threshold_no_progress", "c05_heads_monotone", "c05_heads_monotone_run", "c05_quiet_of_heads", "tie_net_rules"]] + \
+    ["Drand.Net.Reshare." + t for t in ['tie_broadcast_recipients', 'tie_aggregator_threshold_in_loop', 'tie_transition_skip', 'c07_registration_any_time', 'c07_registration_partial', 'c07_late_registration_counterexample', 'c07_reshare_step_progress', 'c07_transition_round_produced']] + \
+    ["Drand.Net." + t for t in ["tie_scheme_put_order", "c05_failed_put_retry", "c05_last_first_counterexample"]]
 TRUSTED = ["Lean 4 kernel; axioms per theorem under coverage.axioms",
            "go2lean netrules extractor: the round arithmetic and guards of broadcastNextPartial, Handler.run, Catchup, ProcessPartialBeacon, "
            "runAggregator, tryAppend, shouldSync, SyncManager.Run/tryNode are regenerated into Gen.NetRules and USED by the model; "
@@ -216,6 +218,8 @@ def oracle_p5(n, t, ops, snaps, dump):
     # (i) chains: gap-free, valid, linked, and equal on common rounds
     chains = {}
     for part in dump.split()[1:]:
+        if part.startswith("ch0="):
+            continue      # (chain hash of the first group: judged by vlib/netreshare.py)
         f = part.split(":")
         if len(f) < 7 or f[1].startswith("err"):
             return ("P5.i", f"dump of {f[0]} failed: {part[:120]}")
@@ -381,12 +385,22 @@ def explore(ctx, res):
                 c = json.load(open(os.path.join(cdir, f)))
                 c["name"] = "corpus:" + f
                 corpus.append(c)
+    early = None
+    if ctx.get("replay") and "init" in json.load(open(ctx["replay"])):
+        # a resharing / index-gap / store-fault script of engine `net` (vlib/netreshare.py)
+        cov, _ = netreshare.replay_part(ctx, res, json.load(open(ctx["replay"])))
+        res.cov.update(evaluations=sum(cov["ops"].values()), rule="replay of one reshare script", distribution={"reshare": cov})
+        return
     if ctx.get("replay"):
         rp = json.load(open(ctx["replay"]))
         plan = [("quick", [dict(rp["case"], ops=rp["ops"])])]
     elif ctx["deep"]:
         # something upstream broke (proof, translator, build): look for a concrete failing input, cheapest scripts first
-        plan = [("quick", corpus + configs("quick", rng)), ("thorough", configs("thorough", rng))]
+        # (the resharing / index-gap / store-fault scripts are few and aimed: they go first)
+        early = netreshare.explore_part(ID, ctx, res)
+        plan = [("quick", corpus + configs("quick", rng))]
+        if not any(f for _, f in res.violations):
+            plan.append(("thorough", configs("thorough", rng)))
     else:
         plan = [(ctx["tier"], corpus + configs(ctx["tier"], rng))]
     results = []
@@ -465,3 +479,14 @@ def explore(ctx, res):
                         "rate": round(nonrepro / max(1, total_attempts), 4),
                         "details": [{"case": r["case"], "failed": r["failed_attempts"]} for r in results if r["failed_attempts"] and not r["reproducible"]][:10]}
     res.cov["model_exact_match"] = {"logged_lines": lines, "lines_where_heads_equal_model": exact}
+    # liveness ACROSS A RESHARING, with index gaps and with a failing store (engine `net`, second part)
+    if not ctx.get("replay"):
+        rcov, rres = early if early is not None else netreshare.explore_part(ID, ctx, res)
+        res.cov["evaluations"] += sum(rcov["ops"].values())
+        res.cov["distinct_nontrivial"] += sum(1 for r in rres if r.get("res"))
+        res.cov["traces_validated_against_impl"] += rcov["validated_against_model"]
+        res.cov["distribution"]["reshare"] = rcov
+        res.cov["rule"] += ("; plus resharing / index-gap / store-fault scripts (vlib/netreshare.py): fewer remainers than the old threshold with joiners needed and leavers "
+                            "stopped by StopAt, a first group with a hole in its share indices, one failing or cancelled base-store Put with exactly a threshold up and "
+                            "with a node to spare (chained and unchained); thorough: every family on every scheme plus random resharings. Liveness rule = C05's, with the "
+                            "membership and threshold of the group in force at each round")
